@@ -220,11 +220,20 @@ Fixpoint clear_loop (fuel : nat) (c : cid) : cid * eres unit :=
   end.
 Definition ci_clear (c : cid) : cid * eres unit := clear_loop (S (length (c_keys c))) c.
 (* MutableMapping.setdefault: try: return self[key] except KeyError: self[key] = default; return default *)
-Definition ci_setdefault (c : cid) (k : K) (d : V) : cid * eres V :=
+Definition base_setdefault (c : cid) (k : K) (d : V) : cid * eres V :=
   match ci_getitem c k with
   | EOk v => (c, EOk v)
   | EExn KeyError => (ci_setitem c k d, EOk d)
   | EExn e => (c, EExn e)
+  end.
+(* CaseInsensitiveDefaultDict.setdefault utils.py:218-221:
+     if key not in self: self[key] = default
+     return self[key] *)
+Definition ci_setdefault (c : cid) (k : K) (d : V) : cid * eres V :=
+  match c_cls c with
+  | ClsDefault =>
+    let c' := if ci_contains c k then c else ci_setitem c k d in (c', ci_getitem c' k)
+  | _ => base_setdefault c k d
   end.
 
 (* ---- operations of a history, their results, one step *)
